@@ -392,15 +392,23 @@ def header(pkg, fstyle):
     dup = fstyle.get("dup", "")
     dupimp = {"context": "\tdupctx \"context\"\n", "cff": "\tdupcff \"go.uber.org/cff\"\n", "": ""}[dup]
     dupuse = {"context": "var _ = dupctx.Background\n", "cff": "var _ = dupcff.NopEmitter\n", "": ""}[dup]
-    return ("%s\n\npackage %s\n\nimport (\n\t%s\"context\"\n%s\n\t%s\"go.uber.org/cff\"\n\t%s\"vgen/ext\"\n\n\t\"verif/harness/pkg/h\"\n)\n\n"
+    # ext = "v2:<name>": the external package is imported WITHOUT a local name from a path whose last element
+    # is not the package name (vgen/<name>/v2 declares package <name>), <name> being one the generator needs itself
+    extpath, extname, extalias = "vgen/ext", ea or "ext", (ea + " ") if ea else ""
+    if ea.startswith("v2:"):
+        extname = ea[3:]
+        extpath, extalias = "vgen/%s/v2" % extname, ""
+    return ("%s\n\npackage %s\n\nimport (\n\t%s\"context\"\n%s\n\t%s\"go.uber.org/cff\"\n\t%s\"%s\"\n\n\t\"verif/harness/pkg/h\"\n)\n\n"
             "var _ = %s.Background\nvar _ %s.E1\n%s\n" % (cons, pkg, (xa + " ") if xa else "", dupimp, (ca + " ") if ca else "",
-                                                         (ea + " ") if ea else "", xa or "context", ea or "ext", dupuse))
+                                                         extalias, extpath, xa or "context", extname, dupuse))
 
 
 def respell(text, fstyle):
     """Applies the file's import aliases to rendered program text."""
     for name in ("cff", "context", "ext"):
         a = fstyle.get(name, "")
+        if a.startswith("v2:"):
+            a = a[3:]
         if a:
             text = re.sub(r"\b%s\." % name, a + ".", text)
     return text
@@ -416,7 +424,7 @@ SURROUND = [
 
 def gen_fstyle(rng):
     return dict(cff=rng.choice(["", "", "c", "cff2"]), context=rng.choice(["", "", "stdctx"]),
-                ext=rng.choice(["", "", "time", "debug", "multierr"]), dup=rng.choice(["", "", "context"]),
+                ext=rng.choice(["", "", "time", "debug", "multierr", "v2:debug", "v2:time"]), dup=rng.choice(["", "", "context"]),
                 constraint=rng.choice(["//go:build cff", "//go:build cff", "//go:build cff\n// +build cff",
                                        "// +build cff", "//go:build cff && !never"]))
 
@@ -434,6 +442,11 @@ def write_module(root, packages, fancy=True):
     with open(os.path.join(root, "ext", "ext.go"), "w") as f:
         f.write("// Package ext holds value types declared outside the package that uses cff.\npackage ext\n\n" +
                 "".join("// E%d is a token carrier.\ntype E%d struct{ Tok int }\n\n" % (i, i) for i in range(1, 13)))
+    for nm in ("debug", "time"):
+        os.makedirs(os.path.join(root, nm, "v2"), exist_ok=True)
+        with open(os.path.join(root, nm, "v2", "ext.go"), "w") as f:
+            f.write("// Package %s is imported from a path whose last element is not its name.\npackage %s\n\n" % (nm, nm) +
+                    "".join("// E%d is a token carrier.\ntype E%d struct{ Tok int }\n\n" % (i, i) for i in range(1, 13)))
     allprogs = []
     for pkg, progs in packages.items():
         d = os.path.join(root, pkg)
